@@ -584,10 +584,30 @@ Definition send_reach : list (string * string) :=
 Definition show_reach (tok : string) : string :=
   if existsb (fun s => String.eqb (fst s) tok) send_reach then tok else "UNMODELLED:" ++ tok.
 
+(* What the `reach` case compares: the ANCHORS of the call graph, i.e. the exported functions / methods that reach
+   a send site and the functions that contain one.  An unexported function without a send site of its own can
+   reach one only through anchors or other such helpers, so it inherits their classification (the harness counts
+   it: stat reach.inherited); extracting or inlining such helpers is silent.  A listed exported function that no
+   longer reaches a send site comes back as MISSING: (the listed functions containing a site are watched by the
+   `sites` case). *)
+Definition upper_first (s : string) : bool :=
+  match s with
+  | String a _ => let n := N_of_ascii a in (65 <=? n) && (n <=? 90)
+  | EmptyString => false
+  end.
+Definition exported_key (k : string) : bool :=
+  match rev (Text.split ":"%char k) with
+  | nm :: _ => forallb upper_first (Text.split "."%char nm)
+  | [] => false
+  end.
+Definition reach_line (args : list string) : string :=
+  let missing := filter (fun s => exported_key (fst s) && negb (existsb (String.eqb (fst s)) args)) send_reach in
+  join "," (map show_reach args ++ map (fun s => ("MISSING:" ++ fst s)%string) missing)%list.
+
 Definition dispatch_line (l : string) : string :=
   match words l with
   | k :: args => if String.eqb k "sites" then out3 (join "," (map show_site args)) "-" "-"
-                 else if String.eqb k "reach" then out3 (join "," (map show_reach args)) "-" "-"
+                 else if String.eqb k "reach" then out3 (reach_line args) "-" "-"
                  else match parse_cfg args with
                       | Some (c, rest) =>
                           with_adm (adm_of k c (filter (fun t => negb (String.prefix "scn:" t)) rest)) k (dispatch k args)
